@@ -60,6 +60,7 @@ var good = []pair{
 	{"a", expr.Eq(expr.Column("foo"), "a"), "foo"},
 	{"a : ( b )", expr.Eq("a", "b"), ""},
 	{"a ~ ( 2 )", expr.FUZZY("a", 2), ""},
+	{"a ~ 1e3", expr.FUZZY("a", 1000), ""},
 	// precedence is deliberately ignored: any derivation counts
 	{"a OR b AND c", expr.AND(expr.OR("a", "b"), "c"), ""},
 }
